@@ -252,4 +252,70 @@ theorem run_untouched {w : World α} (hs : Sep w) (evs : List (Ev α)) (j : Nat)
       rw [ih (callerAlloc_sep hs c) hr]
       exact callerAlloc_view hs c j
 
+/-! ### the attributes of ONE shape never come to share a block -/
+
+/-- a mutator keeps the attribute addresses of its object pairwise distinct: kept addresses were
+distinct, re-bound attributes get consecutive fresh addresses -/
+theorem applyEffs_nodup (fields : List Addr) : ∀ (h : Heap α) (next : Addr) (effs : List (Eff α)),
+    fields.Nodup → (∀ a ∈ fields, a < next) → (applyEffs h next fields effs).2.2.Nodup := by
+  induction fields with
+  | nil => intro h next effs _ _; rw [applyEffs_nil_left]; exact List.nodup_nil
+  | cons a as ih =>
+    intro h next effs hnd hlt
+    cases effs with
+    | nil => rw [applyEffs_nil_right]; exact hnd
+    | cons e es =>
+      obtain ⟨h1, h2, _⟩ := applyEff_spec h next a e
+      obtain ⟨_, i2, _⟩ := applyEffs_spec as (applyEff h next a e).1 (applyEff h next a e).2.1 es
+      have hnd' := List.nodup_cons.mp hnd
+      have hlt_as : ∀ b ∈ as, b < (applyEff h next a e).2.1 :=
+        fun b hb => Nat.lt_of_lt_of_le (hlt b (List.mem_cons_of_mem _ hb)) h1
+      simp only [applyEffs_cons_cons]
+      refine List.nodup_cons.mpr ⟨?_, ih _ _ es hnd'.2 hlt_as⟩
+      intro hmem
+      rcases i2 _ hmem with hin | ⟨hlo, _⟩
+      · -- the new address of `a` is an old address of the tail
+        rcases h2 with h2 | ⟨h2a, _⟩
+        · rw [h2] at hin; exact hnd'.1 hin
+        · exact absurd (hlt _ (List.mem_cons_of_mem _ hin)) (Nat.not_lt.mpr h2a)
+      · -- the new address of `a` is one of the tail's fresh addresses
+        rcases h2 with h2 | ⟨_, h2b⟩
+        · rw [h2] at hlo
+          exact absurd (hlt a List.mem_cons_self) (Nat.not_lt.mpr (Nat.le_trans h1 hlo))
+        · exact absurd h2b (Nat.not_lt.mpr hlo)
+
+/-- every shape's array attributes are pairwise distinct blocks -/
+def Distinct (w : World α) : Prop := ∀ (i : Nat) (fi : List Addr), w.objs[i]? = some fi → fi.Nodup
+
+/-- **no setter makes two attributes of one shape share a block** -/
+theorem step_distinct {w : World α} (hs : Sep w) (hd : Distinct w) (i : Nat) (effs : List (Eff α)) :
+    Distinct (w.step i effs) := by
+  intro j fj' hj'
+  by_cases hji : j = i
+  · subst hji
+    cases hfi : w.objs[j]? with
+    | none =>
+      have : (w.step j effs) = w := by unfold World.step; rw [hfi]
+      rw [this, hfi] at hj'; cases hj'
+    | some fi =>
+      have hlen : j < w.objs.length := by
+        rcases Nat.lt_or_ge j w.objs.length with h | h
+        · exact h
+        · rw [List.getElem?_eq_none h] at hfi; cases hfi
+      have hnew : (w.step j effs).objs[j]? = some (applyEffs w.heap w.next fi effs).2.2 := by
+        unfold World.step; rw [hfi]; exact List.getElem?_set_self hlen
+      rw [hnew] at hj'; cases hj'
+      exact applyEffs_nodup fi w.heap w.next effs (hd j fi hfi) (hs.objs_lt j fi hfi)
+  · rw [step_objs_other w i effs j hji] at hj'
+    exact hd j fj' hj'
+
+theorem run_distinct {w : World α} (hs : Sep w) (hd : Distinct w) (evs : List (Ev α)) : Distinct (run w evs) := by
+  induction evs generalizing w with
+  | nil => exact hd
+  | cons e r ih =>
+    cases e with
+    | mutate i effs => exact ih (step_sep hs i effs) (step_distinct hs hd i effs)
+    | alloc c => exact ih (callerAlloc_sep hs c) hd
+
+
 end SettersHeap
